@@ -160,9 +160,90 @@ pub fn gen_case(seed: u64, case: u64, thorough: bool) -> (ReqModel, SocketAddr, 
     (m, peer, rng)
 }
 
+/// `Request::from_stream_with_timeout` on a real socket: the timeout bounds the wait for the FIRST byte of a request;
+/// once a request has begun, the pieces may arrive further apart than the timeout and the parse result must not change.
+fn timed_case(r: &mut Report, m: &ReqModel, seed: u64, case: u64) {
+    use humphrey::stream::Stream;
+    use std::io::Write;
+    use std::net::{TcpListener, TcpStream};
+    use std::time::Duration;
+    let bytes = m.render();
+    if bytes.len() < 8 {
+        return;
+    }
+    let names = m.names();
+    let mut rng = Rng::derive(seed, 0x02ee_0000 + case);
+    let timeout = Duration::from_millis(200);
+    let head_end = bytes.windows(4).position(|w| w == b"\r\n\r\n").map(|p| p + 4).unwrap_or(bytes.len());
+    let cut = match rng.below(4) {
+        0 => 1,
+        1 => rng.urange(2, head_end.max(3) - 1),
+        2 => head_end.min(bytes.len() - 1).max(1),
+        _ => rng.urange(head_end.min(bytes.len() - 1).max(1), bytes.len() - 1),
+    };
+    let l = match TcpListener::bind("127.0.0.1:0") {
+        Ok(l) => l,
+        Err(e) => {
+            r.inconclusive(format!("timed parse: cannot bind: {}", e));
+            return;
+        }
+    };
+    let addr = l.local_addr().unwrap();
+    let b2 = bytes.clone();
+    let writer = std::thread::spawn(move || {
+        if let Ok(mut c) = TcpStream::connect(addr) {
+            let _ = c.set_nodelay(true);
+            let _ = c.write_all(&b2[..cut]);
+            std::thread::sleep(Duration::from_millis(450));
+            let _ = c.write_all(&b2[cut..]);
+            // keep the connection open until the parser is done
+            std::thread::sleep(Duration::from_millis(300));
+        }
+    });
+    let (sock, peer) = match l.accept() {
+        Ok(x) => x,
+        Err(e) => {
+            r.inconclusive(format!("timed parse: accept failed: {}", e));
+            return;
+        }
+    };
+    r.eval();
+    r.count("timed_parses", 1);
+    let mut st = Stream::Tcp(sock);
+    let res = catch_unwind(AssertUnwindSafe(|| Request::from_stream_with_timeout(&mut st, peer, timeout)));
+    let replay = vec!["c02".into(), "--seed".into(), seed.to_string(), "--timed-case".into(), case.to_string()];
+    let ex = |why: &str| J::obj(vec![("request", m.to_json()), ("bytes", J::s(show(&bytes, 300))), ("first_segment_bytes", J::u(cut as u64)), ("pause_ms", J::u(450)), ("timeout_ms", J::u(200)), ("why", J::s(why))]);
+    match res {
+        Err(p) => r.violation("C02/panic", format!("from_stream_with_timeout panicked: {}", panic_msg(&*p)), ex("panic"), replay),
+        Ok(Err(e)) => r.violation(&format!("C02/timed:rejects-well-formed:{:?}", e), format!("a well-formed request delivered in two segments 450 ms apart (timeout for the wait before a request: 200 ms; first segment {} bytes) was rejected with {:?}", cut, e), ex("rejected"), replay),
+        Ok(Ok(req)) => {
+            let o = observe(&req, &names);
+            let bad = m.compare(&o, &peer.ip().to_string(), peer.port(), "timed-parse");
+            if bad.is_empty() {
+                r.count("timed_parses_faithful", 1);
+            }
+            for (sig, what) in bad {
+                r.violation(&sig, what.clone(), ex(&what), replay.clone());
+            }
+        }
+    }
+    drop(st);
+    writer.join().ok();
+}
+
 pub fn main(args: &Args) {
     let out = args.get("out").expect("--out");
     let seed = args.seed();
+    if let Some(c) = args.get("timed-case") {
+        let case: u64 = c.parse().unwrap();
+        let (m, _, _) = gen_case(seed, case, false);
+        let mut r = Report::new();
+        timed_case(&mut r, &m, seed, case);
+        r.nontrivial(1);
+        r.nontrivial(2);
+        r.write(out, "replay of one timed parse", None, &[]);
+        return;
+    }
     if let Some(c) = args.get("case") {
         let case: u64 = c.parse().unwrap();
         let (m, peer, _) = gen_case(seed, case, args.flag("thorough-case"));
@@ -204,11 +285,15 @@ pub fn main(args: &Args) {
                 r.sample(J::obj(vec![("request", m.to_json()), ("read_plans", J::u(plans.len() as u64)), ("peer", J::s(peer.to_string()))]));
             }
             run_case(&mut r, &m, peer, &plans, seed, case);
+            // a few requests per shard also through from_stream_with_timeout on a socket, slowly
+            if case / nsh as u64 % 97 == 3 && m.xff.is_none() {
+                timed_case(&mut r, &m, seed, case);
+            }
             case += nsh as u64;
         }
         r
     });
     let total = Report::merge_all(reports);
-    let rule = "requests generated from the restricted HTTP/1.x grammar (5 methods, pchar paths with %XX and sub-delims, optional query with ?=&%XX, HTTP/1.0|1.1, 0..48 fields with known/custom names in random case, repeated names interleaved, OWS 0..3, visible-ASCII/inner-blank/non-ASCII values, one Cookie field, one X-Forwarded-For list of IPv4/IPv6 with and without blanks, Content-Length bodies to 4 KiB (64 KiB every 16th case; always in thorough)); each parsed whole, bytewise, at every single split point (<= 512 B, else 24 random), 4 random multi-split plans; then serialised, judged by the strict reference reader and re-parsed. non-trivial = at least one header field; distinct = distinct request bytes";
+    let rule = "requests generated from the restricted HTTP/1.x grammar (5 methods, pchar paths with %XX and sub-delims, optional query with ?=&%XX, HTTP/1.0|1.1, 0..48 fields with known/custom names in random case, repeated names interleaved, OWS 0..3, visible-ASCII/inner-blank/non-ASCII values, one Cookie field, one X-Forwarded-For list of IPv4/IPv6 with and without blanks, Content-Length bodies to 4 KiB (64 KiB every 16th case; always in thorough)); each parsed whole, bytewise, at every single split point (<= 512 B, else 24 random), 4 random multi-split plans; then serialised, judged by the strict reference reader and re-parsed; a sample also through Request::from_stream_with_timeout (200 ms) on a socket, in two segments 450 ms apart. non-trivial = at least one header field; distinct = distinct request bytes";
     total.write(out, rule, None, &["the overall (cross-name) order of fields is not observable through the public API (Headers::iter sorts) and is not judged; per-name order is", "with zero header fields the serialisation carries one extra CRLF after the header section; accepted (RFC 9112 2.2 lets a recipient skip an empty line) and counted"]);
 }
